@@ -200,6 +200,10 @@ class Plugin:
         finally:
             qprops.KEEP = None
 
+    def in_domain(self, case) -> bool:
+        """Harness-side domain restrictions that the model's validity predicate does not express (used by the shrinker)."""
+        return True
+
     def nontrivial(self, case, obs) -> bool:
         return True
 
@@ -305,6 +309,11 @@ def shrink(plug: Plugin, case, pred, budget=400):
     def test(c):
         nonlocal spent
         spent += 1
+        try:
+            if not plug.in_domain(c):      # the shrinker must not leave the domain the generator draws from
+                return False
+        except Exception:
+            return False
         r = evaluate_one(plug, live, c)
         return r is not None and r["valid"] and pred(r)
 
